@@ -5,9 +5,12 @@ import Driver.Ids
 import Driver.Serde
 import Driver.Sync
 import Driver.Crdt
+import Driver.Codec
 import Driver.CrdtRich
 import Driver.CrdtPatch
 import Driver.CrdtX
+import Driver.Capi
+import Driver.Anon
 /-
   amdriver: replays the `>` lines of a harness trace through the executable model and prints the
   model's `<` lines.  `#` lines are copied so the two streams stay aligned by case.
@@ -26,6 +29,7 @@ def dispatch (toks : List String) : List String :=
     | some "ids" => Driver.Ids.exec toks
     | some "serde" => Driver.Serde.exec toks
     | some "sync" => Driver.Sync.exec toks
+    | some "codec" => Driver.Codec.exec toks
     | _ => ["unknown-engine"]
 
 /-- per-case state of the stateful engines (reset at every `# case` line) -/
@@ -43,6 +47,12 @@ def step (st : DState) (toks : List String) : DState × List String :=
         else if cmd.startsWith "crdt.patch." then Driver.CrdtPatch.exec st.crdt toks
         else if cmd.startsWith "crdt.x." then Driver.CrdtX.exec st.crdt toks
         else Driver.Crdt.exec st.crdt toks
+      ({ st with crdt := c }, out)
+    | some "anon" =>
+      let (c, out) := Driver.Anon.exec st.crdt toks
+      ({ st with crdt := c }, out)
+    | some "capi" =>
+      let (c, out) := Driver.Capi.exec st.crdt toks
       ({ st with crdt := c }, out)
     | _ => (st, dispatch toks)
 
